@@ -49,24 +49,24 @@ type GhostVar struct {
 }
 
 type FuncContract struct {
-	Name     string // qualified name as printed by ssa.Function.String() minus package path, e.g. pstr, (*Srv).write
-	Params   []string
-	Results  []string
-	Props    []string
-	Requires []*Clause
-	Ensures  []*Clause
-	Assigns  []*Expr // nil = not specified (default: everything)
+	Name       string // qualified name as printed by ssa.Function.String() minus package path, e.g. pstr, (*Srv).write
+	Params     []string
+	Results    []string
+	Props      []string
+	Requires   []*Clause
+	Ensures    []*Clause
+	Assigns    []*Expr // nil = not specified (default: everything)
 	HasAssigns bool
-	Loops    map[int]*LoopContract
-	Ats      []*AtClause
-	Ghosts   []*GhostVar
-	Extern   bool // body not verified (dependency): assumed
-	Iface    bool
-	Trusted  string
-	Inline   bool
-	NoBody   bool
-	Line     int
-	Opts     map[string]string
+	Loops      map[int]*LoopContract
+	Ats        []*AtClause
+	Ghosts     []*GhostVar
+	Extern     bool // body not verified (dependency): assumed
+	Iface      bool
+	Trusted    string
+	Inline     bool
+	NoBody     bool
+	Line       int
+	Opts       map[string]string
 }
 
 type Macro struct {
@@ -84,13 +84,13 @@ type RecFunc struct {
 }
 
 type Lemma struct {
-	Name   string
-	Vars   []QVar
-	Hyps   []*Clause
-	Concl  []*Clause
-	Props  []string
-	Induct string // variable for induction (int, base 0) or ""
-	Uses   []string
+	Name    string
+	Vars    []QVar
+	Hyps    []*Clause
+	Concl   []*Clause
+	Props   []string
+	Induct  string // variable for induction (int, base 0) or ""
+	Uses    []string
 	Trigger []*Expr
 }
 
@@ -416,7 +416,7 @@ func (cs *Contracts) parseFile(path string) error {
 				return fail("at outside func")
 			}
 			// at call(pattern)#n requires expr | at call(p) ghost name := expr | at call(p) after name := expr
-			m := regexp.MustCompile(`^(\w+)\(([^)]*(?:\([^)]*\)[^)]*)*)\)(?:#(\d+))?\s+(requires|assume|ghost|after)\s+(.*)$`).FindStringSubmatch(rest)
+			m := regexp.MustCompile(`^(\w+)\(([^)]*(?:\([^)]*\)[^)]*)*)\)(?:#(\d+))?\s+(requires|assume|ensures|ghost|after)\s+(.*)$`).FindStringSubmatch(rest)
 			if m == nil {
 				return fail("bad at clause")
 			}
